@@ -213,7 +213,14 @@ class Frame:
             return self.slice_rows(interp, key)
         raise Undecided(f"DataFrame[{type(key).__name__}]")
 
+    def pyvc_binop(self, interp, opname, o, rev):
+        if not self.cols and isinstance(o, (EmptySeries, Frame)) and (isinstance(o, EmptySeries) or not o.cols):
+            return self._new()
+        return NotImplemented
+
     def pyvc_setitem(self, interp, key, val):
+        if isinstance(key, list) and not key and isinstance(val, Frame) and not val.cols:
+            return  # df[[]] = <frame without columns>: nothing changes
         if not isinstance(key, str):
             raise Undecided("DataFrame[non-string] = ...")
         self.cols[key] = self.coerce_column(interp, val, key)
@@ -715,7 +722,22 @@ def _m_query(self, interp):
 
 
 def _m_values(self, interp):
-    raise Undecided("DataFrame.values (2-D)")
+    from .theory_ext import FrameMatrix
+
+    return FrameMatrix(self)
+
+
+def _m_mean(self, interp):
+    def mean(axis=0, **kw):
+        if not self.cols:
+            return EmptySeries()
+        raise Undecided("DataFrame.mean of a non-empty frame")
+
+    return mean
+
+
+class EmptySeries:
+    """the Series obtained by reducing a frame that has no columns"""
 
 
 def _m_iloc(self, interp):
@@ -749,6 +771,8 @@ _FRAME_METHODS = {
     "groupby": _m_groupby,
     "query": _m_query,
     "values": _m_values,
+    "mean": _m_mean,
+    "std": _m_mean,
     "iloc": _m_iloc,
     "index": _m_index,
 }
